@@ -24,7 +24,8 @@ import (
 // snapshot whose predecessor record is the genesis one. Here the consensus
 // operation B whose finalization is cut has a *history*:
 //
-//	prefix (sequential, under the crash cut as well):
+//	prefix (sequential, under the crash cut as well; absent in the scenarios
+//	"recorded=genesis", which are the base part's workloads in memory):
 //	  A   a mint, finalized and recorded (snapshot commit + consensus record)
 //	  R?  a snapshot of ANOTHER chain that includes transaction A again
 //	      (re-inclusion of the recorded consensus transaction: a storage no-op,
@@ -47,11 +48,15 @@ import (
 
 type c21Scenario struct {
 	BKind string   // "mint" | "pledge"
+	NoA   bool     // no prefix: the recorded consensus snapshot is the genesis one (the base part's workload)
 	Reinc bool     // R present
 	Skews []string // per ordinary snapshot of thread B: "older" | "equal" | "newer" (relative to A's timestamp)
 }
 
 func (sc c21Scenario) name() string {
+	if sc.NoA {
+		return fmt.Sprintf("hist:%s:recorded=genesis:skew=%s", sc.BKind, strings.Join(sc.Skews, "+"))
+	}
 	return fmt.Sprintf("hist:%s:reinc=%v:skew=%s", sc.BKind, sc.Reinc, strings.Join(sc.Skews, "+"))
 }
 
@@ -130,6 +135,13 @@ func c21InstallMemHook() {
 			g := v.(*c21GoCtl)
 			if g.paused {
 				return nil
+			}
+			if g.ctl.crashed.Load() {
+				// after the crash nothing becomes durable any more and the in-memory
+				// node is abandoned: the order of the failing commits cannot matter,
+				// so they are no scheduling points (prunes equivalent schedules)
+				g.ctl.count.Add(1)
+				return errMCCrash
 			}
 			verifmc.Point("commit")
 			n := g.ctl.count.Add(1)
@@ -281,7 +293,6 @@ type c21HistInfo struct {
 	harness []string
 	// vacuity guards: situations reached before the restart
 	reached map[string]int64
-	execs   int64
 }
 
 func (h *c21HistInfo) fail(format string, a ...any) {
@@ -305,10 +316,12 @@ func c21HistBody(s *verifmc.Sched, sc c21Scenario, cut int64, info *c21HistInfo,
 	if err != nil {
 		panic(err)
 	}
-	storeOpen := true
+	storeOpen, abandoned := true, false
 	defer func() {
-		if storeOpen {
+		if storeOpen && abandoned {
 			_ = m.Store.Close()
+		} else if storeOpen {
+			m.Close()
 		}
 	}()
 	ctl := &c21MemCtl{}
@@ -361,7 +374,7 @@ func c21HistBody(s *verifmc.Sched, sc c21Scenario, cut int64, info *c21HistInfo,
 	// ---- prefix, sequential, under the cut ----
 	ctl.cut = cut
 	g.paused = false
-	guarded := func(g *c21GoCtl, who string, fn func()) {
+	guarded := func(who string, fn func()) {
 		defer func() {
 			if r := recover(); r != nil && !ctl.crashed.Load() {
 				info.fail("%s cut=%d: %s panicked without a crash: %v @ %s", sc.name(), cut, who, r, verifmc.PanicSite())
@@ -369,13 +382,16 @@ func c21HistBody(s *verifmc.Sched, sc c21Scenario, cut int64, info *c21HistInfo,
 		}()
 		fn()
 	}
-	guarded(g, "prefix", func() {
+	guarded("prefix", func() {
 		// A's builder result is kept: R names the very same transaction
 		build := dA.Build
 		dA.Build = func(m *mcNode, ts uint64) []*common.VersionedTransaction {
 			txs := build(m, ts)
 			txA = txs[0]
 			return txs
+		}
+		if sc.NoA {
+			return
 		}
 		c21Deliver(m, dA, g, names)
 		if sc.Reinc {
@@ -390,12 +406,12 @@ func c21HistBody(s *verifmc.Sched, sc c21Scenario, cut int64, info *c21HistInfo,
 		s.Go("A", func() {
 			tg := c21Register(ctl)
 			defer c21Unregister()
-			guarded(tg, "thread A", func() { c21Deliver(m, dB, tg, names) })
+			guarded("thread A", func() { c21Deliver(m, dB, tg, names) })
 		})
 		s.Go("B", func() {
 			tg := c21Register(ctl)
 			defer c21Unregister()
-			guarded(tg, "thread B", func() {
+			guarded("thread B", func() {
 				for _, d := range ordinary {
 					c21Deliver(m, d, tg, names)
 				}
@@ -445,8 +461,7 @@ func c21HistBody(s *verifmc.Sched, sc c21Scenario, cut int64, info *c21HistInfo,
 		hn := names.get(head.PayloadHash())
 		if strings.HasPrefix(hn, "O") {
 			info.reach("unrecorded-then-ordinary")
-			tsA := m.Net.Epoch + uint64(mcCrashBase+c21TsA)
-			switch {
+			switch tsA := pre.Timestamp; {
 			case head.Timestamp < tsA:
 				info.reach("unrecorded-then-ordinary:head-older-than-recorded")
 			case head.Timestamp == tsA:
@@ -471,6 +486,7 @@ func c21HistBody(s *verifmc.Sched, sc c21Scenario, cut int64, info *c21HistInfo,
 
 	// ---- restart: abandon the node, real SetupNode over what was committed ----
 	m.Abandon()
+	abandoned = true
 	var m2 *mcNode
 	var rerr error
 	if pp, site := verifmc.CatchSite(func() { m2, rerr = newMCNodeOnStore(mcNet7, 0, st) }); pp != nil {
@@ -494,8 +510,7 @@ func c21HistBody(s *verifmc.Sched, sc c21Scenario, cut int64, info *c21HistInfo,
 		if head != nil {
 			hn = names.get(head.PayloadHash())
 			if strings.HasPrefix(hn, "O") {
-				tsA := m.Net.Epoch + uint64(mcCrashBase+c21TsA)
-				switch {
+				switch tsA := pre.Timestamp; {
 				case head.Timestamp < tsA:
 					hn = "ordinary-older-than-recorded"
 				case head.Timestamp == tsA:
@@ -534,6 +549,11 @@ func c21Scenarios(thorough bool) []c21Scenario {
 		}
 	}
 	for _, kind := range []string{"mint", "pledge"} {
+		// the base part's workload (recorded = genesis; every other timestamp is newer)
+		out = append(out, c21Scenario{BKind: kind, NoA: true, Skews: []string{"newer"}})
+		if thorough {
+			out = append(out, c21Scenario{BKind: kind, NoA: true, Skews: []string{"older", "newer"}})
+		}
 		for _, reinc := range []bool{false, true} {
 			for _, sk := range skews {
 				out = append(out, c21Scenario{BKind: kind, Reinc: reinc, Skews: sk})
